@@ -96,6 +96,8 @@ def _gen(rng, big=False):
     if sg.size(ast) >= 4 and rng.random() < 0.2:
         # the same requirement written with named sub-specifications (several assertions in one text, or add_sub_spec)
         defs, top = sg.modularize(rng, ast, max_subs=3, prefer_stateful=rng.random() < 0.5)
+        if rng.random() < 0.3:
+            defs, top = sg.add_alias(rng, defs, top, 'q1')       # a bare number or variable with a name of its own (also used as -(q1))
         sp = sg.Spelling(rng)
         subs = ['%s = %s;' % (nm, sg.to_text(a, sp, common.dense_bounds)) for nm, a in defs]
         text = 'out = ' + sg.to_text(top, sp, common.dense_bounds) + ';'
